@@ -45,6 +45,14 @@ def program_sources(seed, ngen, with_corpus=True, corpus_limit=None, ncasc=None)
     for i in range(max(10, (ngen if ncasc is None else ncasc) // 4)):
         out.append(("macro%d" % i, {"mode": "asm", "files": {"main.asm": genasm.render_macro_program(genasm.gen_macro_program(rng))},
                                     "roots": ["main.asm"]}))
+    # constants read from files (statically known by classification, but not computable before the files are read)
+    for i in range(max(4, (ngen if ncasc is None else ncasc) // 25)):
+        fn_, fname, content = rng.choice([("incbin", "data.bin", "\x2a\x33"), ("inchexstr", "h.txt", "beef"), ("incbinstr", "b.txt", "1010_0101")])
+        src = ("#ruledef\n{\n    ld {v} => 0x10 @ v`8\n}\ntag = %s(\"%s\")\nld tag[7:0]\n#d16 0x%s\nlab:\nld lab\n"
+               % (fn_, fname, "beef"))
+        if rng.random() < 0.5:
+            src = src.replace("tag = ", "#d8 1\ntag = ")
+        out.append(("incconst%d" % i, {"mode": "asm", "files": {"main.asm": src, fname: content}, "roots": ["main.asm"]}))
     # top-level rule blocks that refer to themselves (operands of the block's own type, left and right recursive)
     for i in range(max(4, (ngen if ncasc is None else ncasc) // 20)):
         out.append(("selfref%d" % i, {"mode": "asm", "files": {"main.asm": selfref_program(rng)}, "roots": ["main.asm"]}))
@@ -125,7 +133,7 @@ def resolver_traces(ck, names, jobs, results, sample_every=50):
 def run_c09(ck):
     quick = ck.tier == "quick"
     run_mc(ck, "MC_Resolve_quick.cfg" if quick else "MC_Resolve_thorough.cfg", workers=8 if quick else 14)
-    progs = program_sources(ck.seed, 60 if quick else 1500, corpus_limit=120 if quick else None)
+    progs = program_sources(ck.seed, 60 if quick else 1500, corpus_limit=120 if quick else None, ncasc=250 if quick else 2500)
     jobs, names, owner = [], [], []
     for pi, (name, job) in enumerate(progs):
         for b in BUDGETS_C09:
